@@ -297,8 +297,8 @@ def judge(case, il, dl, T):
                         break
     if kind in ("guess", "none") and all(j is not None for j in js):
         m = min(g, tv + 1)
-        if len(peaks) > 300 + 1:
-            issues.append(("C09", "default-cap", f"default request returned {len(peaks)} peaks"))
+        if len(peaks) > 300:
+            issues.append(("C09", "default-cap", f"default request returned {len(peaks)} peaks (at most 300)"))
         tot = sum(p for _, p in spec.values())
         need = [j for j in range(m) if j in spec and spec[j][1] / tot >= Fraction(1, 10 ** 9)]
         missing = [j for j in need if j not in js]
@@ -476,6 +476,10 @@ def run_c03_c09(r: Run, prop):
                     why = ("mz-range", "an m/z lies outside [lightest, heaviest] isotopologue")
                 elif any(q[1] < 0 for q in pk) or sum(q[1] for q in pk) > 1 + Fraction(1, 10 ** 9):
                     why = ("intensity", "negative intensity or a sum above 1")
+                elif req in ("guess", "none") and len(pk) > 300:
+                    why = ("default-cap", f"default request returned {len(pk)} peaks (at most 300)")
+                elif req.startswith("n:") and len(pk) > int(req[2:]):
+                    why = ("count", f"{len(pk)} peaks for a request of {req[2:]}")
             if why is not None:
                 corr_ok = False
                 r.violation(why[0], {"elements": sorted(s for s, _ in c)[:4], "scale": "huge"},
@@ -518,7 +522,12 @@ FAILING = 3
 
 
 def call_str(c):
-    return f"{c[0]};{c[1]};{c[2]};1007276/1000000;vec"
+    # carrier and representation are part of the call: they vary with the request (deterministically, so that a history replays)
+    import zlib
+    h = zlib.crc32(f"{c[0]}|{c[1]}|{c[2]}".encode())
+    carrier = ("1007276/1000000", "22989218/1000000", "-549/1000000", "1007276/1000000", "0/1")[h % 5]
+    form = ("vec", "map")[(h // 5) % 2]
+    return f"{c[0]};{c[1]};{c[2]};{carrier};{form}"
 
 
 def same_peaks(a, b, tol):
@@ -554,7 +563,14 @@ def run_c08(r: Run):
             r.violation("history", {"kind": "protocol"}, f"generator history produced {il[:80]}", observed={"lines": [line[:2000]]})
             continue
         for k, o in enumerate(outs):
-            gen_s, st_s = o.split("~") if "~" in o else (o, "")
+            gen_s, st_s, ck_s = (o.split("~") + ["", ""])[:3] if "~" in o else (o, "", "")
+            if ck_s and not same_peaks(ck_s, st_s, 1e-12):
+                corr_ok = False
+                r.violation("history", {"last_call": h[k][0], "len": min(k + 1, 4), "path": "from_composition_and_cache"},
+                            f"after {k} earlier calls sharing one IsotopicConstantsCache, from_composition_and_cache(..).isotopic_variants for "
+                            f"{h[k][0]} @ {h[k][1]} differs from the stateless function's", expected=st_s[:300],
+                            observed={"lines": ["brainhist\t" + "|".join(call_str(c) for c in h[: k + 1])], "impl": ck_s[:300]})
+                break
             if not same_peaks(gen_s, st_s, 1e-12):
                 corr_ok = False
                 # shrink: shortest prefix/suffix that still differs
@@ -591,8 +607,10 @@ def run_c08(r: Run):
         good = len(outs) == 2
         if good:
             for o in outs:
-                gen_s, _, st_s = o.partition("~")
+                gen_s, st_s, ck_s = (o.split("~") + ["", ""])[:3]
                 if gen_s != st_s and not same_peaks(gen_s, st_s, 1e-12):
+                    good = False
+                if ck_s != st_s and not same_peaks(ck_s, st_s, 1e-12):
                     good = False
         r.evaluations += 1
         if not good:
@@ -600,7 +618,7 @@ def run_c08(r: Run):
             npair_bad += 1
             if npair_bad <= 4:
                 r.violation("history", {"pair": [a, b]}, f"one generator asked for {a} and then for {b} returns a pattern for {b} that differs "
-                            f"from the stateless function's", expected=il.split("|")[-1].partition("~")[2][:300],
+                            f"from the stateless function's", expected=il.split("|")[-1].split("~")[1][:300],
                             observed={"lines": [line], "impl": il[:300]})
     # every element on its own generator: a SHORT first request (2..7 peaks — for some elements exactly the length at which
     # cached polynomial vectors would be cut or skipped), then longer ones that need every term the element has and more
@@ -621,8 +639,10 @@ def run_c08(r: Run):
         good = len(outs) == 5
         if good:
             for o in outs:
-                gen_s, _, st_s = o.partition("~")
+                gen_s, st_s, ck_s = (o.split("~") + ["", ""])[:3]
                 if gen_s != st_s and not same_peaks(gen_s, st_s, 1e-12):
+                    good = False
+                if ck_s != st_s and not same_peaks(ck_s, st_s, 1e-12):
                     good = False
         r.evaluations += 1
         if not good:
